@@ -56,7 +56,7 @@ def build(spec) -> Built:
         )
         g.edges.append(e)
     if spec.get("uni") is not None:
-        g.uni = zoo.Universe()
+        g.uni = zoo.FalsyUniverse() if spec.get("uni_cls") == "FalsyUniverse" else zoo.Universe()
         for i in spec["uni"]:
             g.uni.add_vertex(g.verts[i])
     return g
@@ -64,7 +64,7 @@ def build(spec) -> Built:
 
 VCLS_PLAIN = ["Vertex"]
 VCLS_MIX = ["Vertex", "Vertex", "VSub", "VSubSub", "FalsyVertex", "EmptyVertex", "Universe", "VBoth", "VFancy"]
-ECLS_DU = ["DirectedEdge", "UnDirectedEdge", "DSub", "DSubSub", "USub", "MixEdge"]
+ECLS_DU = ["DirectedEdge", "UnDirectedEdge", "DSub", "DSubSub", "USub", "MixEdge", "FalsyEdge"]
 ECLS_ALL = ECLS_DU + ["OtherLink", "OtherLink2", "TwoEndedLink"]
 
 
@@ -115,7 +115,10 @@ def rand_spec(rng: random.Random, nmax=6, mmax=12, vcls=VCLS_MIX, ecls=ECLS_ALL,
             i, j = (e0[1], e0[2]) if rng.random() < 0.5 else (e0[2], e0[1])
         edges.append([rng.choice(ecls), i, j, rng.randrange(6)])
     uni = _rand_uni(rng, n, uni_mode)
-    return {"verts": verts, "edges": edges, "uni": uni}
+    spec = {"verts": verts, "edges": edges, "uni": uni}
+    if uni is not None and rng.random() < 0.25:
+        spec["uni_cls"] = "FalsyUniverse"
+    return spec
 
 
 def _rand_uni(rng, n, mode):
